@@ -1167,3 +1167,5 @@ def cross_dispatch_after(kind='idle_gap'):
         cfg_extra = dict(ints={'r': [3, 4]}, c14_not_about=['R'])
     main += [['root', 'A', 'P', 'P1'], ['root', 'A', 'L', 'L1'], ['sleep', '2'], ['obs_all', 'end']]
     return dict(buses=['A', 'B'], order=['A', 'B'], reals={'d1': ['0', '1/5'], 'd2': ['1/100', '3/10']}, handlers=handlers, main=main, horizon=9, **cfg_extra)
+
+
